@@ -307,8 +307,9 @@ class OptimizationAbstract(ABC, Generic[T]):
 
         # Evaluate the early stopping criteria
         if early_stopping is not None:
-            min_delta, patience = early_stopping.min_delta, early_stopping.patience
-            print(min_delta, patience, self._error_diffs[-patience:])
+            # `patience` and `min_delta` are declared optional: None means the documented default
+            min_delta = early_stopping.min_delta if early_stopping.min_delta is not None else 1e-4
+            patience = early_stopping.patience if early_stopping.patience is not None else 1
             has_to_stop |= all([diff < 0 and abs(diff) < min_delta for diff in self._error_diffs[-patience:]])
 
         # Stop when the error is below the error criteria
